@@ -18,20 +18,7 @@ pub(crate) fn mk_amended(request: Request<()>) -> AmendedRequest<()> {
     }
 }
 
-/// The nine standard methods, by menu index.
-pub(crate) fn method_at(i: usize) -> Method {
-    match i {
-        0 => Method::GET,
-        1 => Method::HEAD,
-        2 => Method::POST,
-        3 => Method::PUT,
-        4 => Method::DELETE,
-        5 => Method::CONNECT,
-        6 => Method::OPTIONS,
-        7 => Method::TRACE,
-        _ => Method::PATCH,
-    }
-}
+pub(crate) use crate::verif_common::method_at;
 pub(crate) fn method_needs_body(i: usize) -> bool {
     i == 2 || i == 3 || i == 8
 }
